@@ -85,8 +85,8 @@ PROPS = {
         "un-doubled, each expression converted once; with meta:interpolation off nothing is evaluated.",
         S_INTERP + S_COMMENT + [U('pyvc.frames', 'instance_state', 'instance_state'),
                     U('bounded.units', 'interp', 'B-INTERP')],
-        ["the delimiter search of Interpolator.__call__ (regex + validity loop; bounded stand-in pending)",
-         "attribute / comment / CDATA contexts (pending)", "entity decoding of the expression text"]),
+        ["the delimiter search of Interpolator.__call__ (regex + validity loop): bounded stand-in B-INTERP only",
+         "CDATA context (attribute and comment contexts: S-Interp-percent, S-Comment-*)", "entity decoding of the expression text"]),
     "C07": k3prop(
         "For a dynamic attribute the emitted code is proved to call the escape routine once with the "
         "attribute's own quote character and static text as default, to drop the attribute for None, "
@@ -94,7 +94,7 @@ PROPS = {
         [K("k3::S-Attribute"), K("k3::S-Attribute-dict")] + K2Q +
         [U('bounded.units', 'attrs', 'B-ATTR'), U('bounded.units', 'split', 'B-SPLIT')],
         ["tal.prepare_attributes: only the bounded stand-in B-ATTR (not counted as proved)",
-         "boolean and dict attributes (pending)"]),
+         "boolean attributes (dict-valued entries: S-Attribute-dict decides evaluation count only)"]),
     "C09": k3prop(
         "The calling convention of use-macro (same stream, copy of the scope, same render-wide "
         "context, current i18n parameters, macroname bound, globals merged back) and the slot "
@@ -103,7 +103,7 @@ PROPS = {
         S_METAL + [K("zpt/template.py::Macros.__getitem__")],
         ["'equals inlining' is reduced to calling convention + slot protocol + A-COMP",
          "extend-macro chains and nested uses (deque discipline across call histories)",
-         "Macros.names, PageTemplate.include (pending)"]),
+         "Macros.names, PageTemplate.include"]),
     "C10": k3prop(
         "Emitted translation blocks are proved to call translate exactly once with the explicit or "
         "computed (collapsed, trimmed, ${name}) message id, the mapping of named children, the "
@@ -112,7 +112,7 @@ PROPS = {
         "objects are offered to translate exactly once by the conversion routine (K2).",
         S_I18N + [K("compiler.py::K2.__quote"), K("k3::S-OnError-in-translate"),
                   U('pyvc.regexlang', 'whitespace_unit', 'prelude.__re_whitespace')] + [FRESH],
-        ["i18n:attributes and implicit translation (pending)", "simple_translate interpolation",
+        ["i18n:attributes and implicit translation", "simple_translate interpolation",
          "nested translate blocks (by induction through HoleC)"]),
     "C12": k3prop(
         "In every schema, on every normal and exceptional path, the position token in force when an "
@@ -124,7 +124,7 @@ PROPS = {
                                             K("template.py::BaseTemplate.render"),
                                             U('pyvc.frames', 'render_write_frame', 'render.write_frame')],
         ["create_formatted_exception itself (dynamic class creation; outside the subset)",
-         "ExceptionFormatter record order (pending)"]),
+         "ExceptionFormatter record order (only: formatting stores nothing on the formatter)"]),
     "C03": {
         "technique": TECH + "; REGEX-STRUCT (facts about the lexer/dissection patterns proved on their "
                      "parse trees)",
@@ -146,7 +146,7 @@ PROPS = {
                   U('pyvc.frames', 'tag_nodes_frame', 'visit_element.tag_node_fields'),
                   U('bounded.units', 'verbatim', 'B-VERBATIM'), U('bounded.units', 'attrs', 'B-ATTR')],
         "not_decided": ["match_tag field contracts, visit_Start / visit_Attribute(static) emitters (bounded only)",
-                        "CR/CRLF normalisation in PageTemplate.parse (pending)",
+                        "CR/CRLF normalisation in PageTemplate.parse (the XML/HTML decision it depends on is under contract: BaseTemplate.write)",
                         "ElementParser child order"],
         "assumptions": COMMON_ASSUMPTIONS + ["re engine semantics"],
     },
@@ -185,7 +185,7 @@ PROPS = {
         "units": [U('pyvc.frames', 'digest_reads_frame', 'digest.reads_frame'),
                   U('pyvc.frames', 'render_write_frame', 'render.write_frame'),
                   K("loader.py::ModuleLoader.build")],
-        "not_decided": ["ModuleLoader.get/_load and _get_module_name (pending)",
+        "not_decided": ["ModuleLoader.get/_load and _get_module_name",
                         "two-writer interleavings (schedule-quantified)"],
         "assumptions": COMMON_ASSUMPTIONS + ["POSIX: rename is atomic, mkstemp names are unique"],
     },
@@ -225,7 +225,7 @@ PROPS = {
                       "Enumeration is complete for 15 statements x 4 spellings, not for all documents.",
         "units": [K("parser.py::ElementParser.visit_empty_tag"), K("parser.py::ElementParser.visit_start_tag"),
                   U('pyvc.spelling', 'unit', 'spelling', needs_k3=True)],
-        "not_decided": ["unpack_attributes / convert_data_attributes / prepare_attributes drop clause (K1, in progress)",
+        "not_decided": ["unpack_attributes / convert_data_attributes / prepare_attributes drop clause (covered by the spelling / no-leak enumeration and B-ATTR only)",
                         "namespace-element form (<tal:block>)"],
         "assumptions": COMMON_ASSUMPTIONS + ["assumed contract: parser.parse_tag (frame)"],
     },
@@ -237,15 +237,15 @@ PROPS = {
          U('pyvc.frames', 'strict_reads_frame', 'strict.reads_frame'),
          U('pyvc.frames', 'strict_identity', 'strict_identity', needs_k3=True),
          U('pyvc.frames', 'cook_error_frame', '_cook.error_frame')],
-        ["pickle round trip of ExpressionError (bounded stand-in pending)"]),
+        ["pickle round trip of ExpressionError"]),
     "C20": k3prop(
         "Text-mode templates: the emitted code is proved to copy the source text ('<', '&', tags "
         "included) with each ${expr} replaced by the unescaped string form and $$ by $, also when the "
         "text starts with markup characters.",
         [K("k3::S-TextMode"), K("k3::S-TextMode-lt"), K("k3::S-TextMode-endtag"),
          U('bounded.units', 'interp', 'B-INTERP')],
-        ["delimiter search of Interpolator.__call__ (bounded stand-in pending)",
-         "PageTextTemplateFile.render encoding (pending)"]),
+        ["delimiter search of Interpolator.__call__: bounded stand-in B-INTERP only",
+         "PageTextTemplateFile.render encoding"]),
     "C01": {
         "technique": TECH + "; applied to code emitted by the real compiler for schema templates (K3)",
         "level_text": "For each TAL statement the emitted render code is proved, for all values, all "
@@ -282,7 +282,7 @@ PROPS = {
                       "(translate returns its argument, a str or None), re search semantics for the "
                       "5-character class. Not yet decided: the sinks (K3) and the choice of quote entity.",
         "units": K2Q + [K("zpt/loader.py::TemplateLoader.load"), K("loader.py::cache.load")],
-        "not_decided": ["sinks: which quote/entity each emitted call site passes (pending K3)",
+        "not_decided": ["sinks: which quote/entity each emitted call site passes (decided per schema: S-Content, S-Attribute, S-Interp-*, S-Comment-interp)",
                         "'same elements and attributes as for a harmless value' follows from G1-G3 by "
                         "a context argument that is not machine-checked"],
         "assumptions": COMMON_ASSUMPTIONS + ["A-DECODE", "A-TRANSLATE", "HOM-2"],
@@ -302,7 +302,7 @@ PROPS = {
                   U('pyvc.regexlang', 'meta_unit', 're_meta.order'),
                   U('pyvc.frames', 'render_write_frame', 'render.write_frame')],
         "not_decided": ["RE_META fixes the attribute order http-equiv before content (finding D16)",
-                        "template.write/read/parse plumbing (pending)"],
+                        "BaseTemplateFile.read (file decoding path) and PageTemplate.parse itself"],
         "assumptions": COMMON_ASSUMPTIONS + ["bytes are modelled as strings of code points 0..255"],
     },
     "C08": {
